@@ -91,8 +91,8 @@ HeadsEv ==
 LookupOk(h, q) ==
   /\ q.t \in DOMAIN txinfo
   /\ q.has = HasTx(h, q.t)
-  /\ q.found = (TxMetaSet(h, q.t) # {})
-  /\ q.found => \E e \in TxMetaSet(h, q.t) :
+  /\ q.found = (TxMeta(h, q.t) # NoEntry)
+  /\ q.found => LET e == TxMeta(h, q.t) IN     \* the first entry in key order that is on the head's chain
         /\ e.num = q.num /\ e.conflicts = q.conflicts /\ e.index = q.idx /\ e.rev = q.rev
         /\ LET b == ByVer(<<e.num, e.conflicts>>) IN
            /\ q.gt = blocks[b].txs[e.index + 1]          \* GetTransaction returned this tx
